@@ -369,7 +369,8 @@ fn classify(text: &str, toks: &[Tok], edits: &[(usize, usize)]) -> String {
         return String::new();
     }
     let (b, g) = edits[0];
-    // sections the lexer skips as raw text (defective model: `take_until("END")`, `take_until_unbalanced("{", "}")`)
+    // sections the lexer skips without interpreting them (once by `take_until("END")` / brace counting alone: the two
+    // classes below were known findings until d481e20 / 5d0caf3; they are still named, so that a return is reported as such)
     let pos = toks[b].end;
     if let Some(ec) = text.find("ENCODING-CONTROL") {
         if pos > ec && GAPS[g].contains("END") {
